@@ -14,7 +14,7 @@ N == Len(Events)
 Scn == JsonDeserialize(IOEnv.VERIF_SCN)
 
 ElemOps == {"with_item", "update_item", "transform_item", "without_item"}
-IsCow(a) == a.op \notin {"setattr", "delattr"} /\ ~a.inplace
+IsCow(a) == "inplace" \in DOMAIN a /\ ~a.inplace
 Inter(x, y) == ToSet(x) \cap ToSet(y)
 
 Failing(e) ==
@@ -24,23 +24,30 @@ Failing(e) ==
       d == Step(CT, e.pre, a)
       specified == "unspecified" \notin d.res
       fam == IF a.op \in ElemOps THEN "c06" ELSE "c05"
-      got == IF e.same THEN e.recv_post ELSE e.result
+      got == IF e.same \/ a.op = "read" THEN e.recv_post ELSE e.result
   IN
      (IF cow /\ ~fro /\ ~dncc /\ ~unchanged THEN {"c01_receiver_changed"} ELSE {})
   \cup (IF ~e.args_same THEN {"c01_argument_changed"} ELSE {})
   \* (identity transforms hand the receiver's own object back: excluded by the property's quantifier)
   \cup (IF cow /\ ~dncc /\ e.res = "ok" /\ ~e.same /\ e.result_kind = "obj" /\ ~("f" \in DOMAIN a /\ a.f = "same")
            /\ ~(Inter(e.tok_res, e.tok_recv) \subseteq ToSet(e.tok_args) \cup ToSet(e.tok_dnc)) THEN {"c02_shared_mutable_state"} ELSE {})
+  \* a copy-on-write call that changes something must not hand back the receiver itself
+  \cup (IF cow /\ ~dncc /\ ~fro /\ specified /\ d.res = {"ok"} /\ ~d.same /\ e.res = "ok" /\ e.same THEN {"c02_result_is_receiver"} ELSE {})
   \cup (IF ~TypeOKObj(CT, e.recv_post) \/ (e.result_kind = "obj" /\ e.result.c \in DOMAIN CT /\ ~TypeOKObj(CT, e.result))
         THEN {"c03_ill_typed_value_stored"} ELSE {})
   \cup (IF e.res # "ok" /\ ~(unchanged /\ e.args_same) THEN {"c04_partial_commit"} ELSE {})
   \cup (IF specified /\ e.res \notin d.res THEN {fam \o "_outcome"} ELSE {})
-  \cup (IF specified /\ e.res = "ok" /\ "ok" \in d.res /\ d.val.t = "obj"
+  \cup (IF specified /\ a.op # "read" /\ e.res = "ok" /\ "ok" \in d.res /\ d.val.t = "obj"
            /\ (e.result_kind # "obj" \/ ~EqV(got, d.val)) THEN {fam \o "_state"} ELSE {})
-  \cup (IF specified /\ e.res = "ok" /\ d.res = {"ok"} /\ e.same # d.same /\ ~(fro /\ cow) THEN {fam \o "_returns_wrong_object"} ELSE {})
+  \cup (IF specified /\ a.op = "read" /\ e.res = "ok" /\ "ok" \in d.res /\ ~EqV(e.recv_post, d.val) THEN {"c11_read_changed_state_wrongly"} ELSE {})
+  \cup (IF specified /\ a.op # "read" /\ e.res = "ok" /\ d.res = {"ok"} /\ e.same # d.same /\ ~(fro /\ cow) THEN {fam \o "_returns_wrong_object"} ELSE {})
   \cup (IF fro /\ ~unchanged THEN {"c07_frozen_instance_changed"} ELSE {})
   \cup (IF fro /\ ~cow /\ specified /\ "ok" \notin d.res /\ e.res = "ok" THEN {"c07_inplace_on_frozen_not_rejected"} ELSE {})
   \cup (IF fro /\ cow /\ specified /\ d.res = {"ok"} /\ ~d.same /\ e.res = "ok" /\ e.same THEN {"c07_copy_returns_receiver"} ELSE {})
+  \* C11: no cache entry of the observed object differs from the getter on its observed state (override ghost taken from the model)
+  \cup (IF specified /\ e.res = "ok" /\ d.res = {"ok"} /\ d.val.t = "obj" /\ (e.same \/ e.result_kind = "obj")
+           /\ ~Fresh(CT, [t |-> "obj", c |-> got.c, a |-> got.a, x |-> got.x, ov |-> d.val.ov]) THEN {"c11_stale_derived_value"} ELSE {})
+  \cup (IF a.op = "read" /\ specified /\ e.res = "ok" /\ d.res = {"ok"} /\ ~EqV(e.result, d.ret) THEN {"c11_read_returns_wrong_value"} ELSE {})
   \cup (IF ~e.peer_same THEN {"c08_peer_changed"} ELSE {})
   \cup (IF ~e.dflt_same THEN {"c08_class_default_changed"} ELSE {})
   \cup (IF Inter(e.tok_recv \o e.tok_res, e.tok_dflt) # {} THEN {"c08_shares_class_default"} ELSE {})
